@@ -25,7 +25,11 @@ Definition sweep_cases : list (list tx) := [
   [evm_tx [eth 20 0 21000]; evm_tx [eth 20 3 21000]];
   [evm_tx [eth 20 0 21000]; {| t_ext := NoExt; t_signer := 98; t_key := KNone; t_fee := 1000000; t_msgs := [eth 20 0 50000] |}];
   [evm_tx [eth 20 0 21000]; {| t_ext := OtherExt; t_signer := 98; t_key := KNone; t_fee := 1000000; t_msgs := [eth 20 0 50000] |}];
-  [ek_tx 20 [Exec 20 [Leaf (Grant 20 1 (MKLeaf K_ETH))]]; cos_tx 1 [Exec 1 [Exec 1 [eth 20 0 50000]]]]
+  [ek_tx 20 [Exec 20 [Leaf (Grant 20 1 (MKLeaf K_ETH))]]; cos_tx 1 [Exec 1 [Exec 1 [eth 20 0 50000]]]];
+  [evm_tx [eth 20 0 21000]; cos_tx 1 [Exec 1 [Exec 1 [Leaf (EthTxAs 1 20 0 50000 1 1)]]]];
+  [evm_tx [eth 20 0 21000]; cos_tx 0 [Wasm 0 10 [Exec 10 [Leaf (EthTxAs 10 20 0 50000 1 1)]]]];
+  [evm_tx [eth 20 0 21000]; cos_tx 1 [Exec 1 [Leaf (EthTxAs 1 20 0 50000 1 1)]]];
+  [evm_tx [eth 20 0 21000]; cos_tx 1 [Leaf (EthTxAs 1 20 0 50000 1 1)]]
 ].
 
 (** what must never be seen after one transaction, on the model's own states *)
